@@ -76,6 +76,7 @@ type GenOpts struct {
 	Online             bool // add a prometheus{} block pointing at PromURIPlaceholder
 	MinRuleBlocks      int  // lower bound on the number of rule{} blocks in the config
 	CommentPerKind     bool // all check blocks of one kind share their `comment` (see sevAttrs)
+	Bulk               bool // a third of the inputs get one extra file with 50-200 rules in one group
 	Styles             gen.StyleOpts
 }
 
@@ -119,6 +120,18 @@ func genRule(t *rapid.T, label string) gen.RuleSpec {
 	r := gen.GenRule(t, label)
 	if rapid.IntRange(0, 2).Draw(t, label+".noisy") == 0 {
 		r.Expr = rapid.SampledFrom(noisyExprs).Draw(t, label+".nexpr")
+	}
+	if rapid.IntRange(0, 2).Draw(t, label+".teamlabel") == 0 {
+		// a label of its own that depends on the rule: {{ $alert }} checks compare against it
+		has := false
+		for _, kv := range r.Labels {
+			if kv[0] == "team" {
+				has = true
+			}
+		}
+		if !has {
+			r.Labels = append(r.Labels, [2]string{"team", r.Name})
+		}
 	}
 	if r.Alert && rapid.IntRange(0, 2).Draw(t, label+".extralabel") == 0 {
 		// labels that config blocks below look at
@@ -172,6 +185,50 @@ func brokenRule(t *rapid.T, label string) *gen.Node {
 	default: // labels is not a mapping
 		return gen.Map(gen.KV("alert", gen.P("BadLabels")), gen.KV("expr", gen.P("up == 0")), gen.KV("labels", gen.P("oops")))
 	}
+}
+
+var groupLabelKeys = []string{"region", "cluster", "dc", "tier", "site", "zone", "owner", "env"}
+
+// genGroupLabels draws 0-8 group-level labels (pint merges them into every rule's
+// label set; 3, 5, 6 and 7 leave spare capacity in the parsed slice).
+func genGroupLabels(t *rapid.T, lbl string) [][2]string {
+	n := rapid.SampledFrom([]int{0, 0, 0, 1, 2, 3, 3, 4, 5, 5, 6, 7, 8}).Draw(t, lbl+".nglabels")
+	var out [][2]string
+	for i := 0; i < n; i++ {
+		out = append(out, [2]string{groupLabelKeys[i], rapid.SampledFrom([]string{"eu", "c1", "prod", "x"}).Draw(t, fmt.Sprintf("%s.glv%d", lbl, i))})
+	}
+	return out
+}
+
+// bulkFile renders one large group (n rules, k group-level labels) with few draws:
+// rule i is a function of i, and every rule carries `team: <its own name>`, which the
+// templated label/reject checks of GenConfig compare against {{ $alert }}.
+func bulkFile(n, k, variant int) string {
+	var b strings.Builder
+	b.WriteString("groups:\n- name: bulk\n")
+	if k > 0 {
+		b.WriteString("  labels:\n")
+		for i := 0; i < k; i++ {
+			fmt.Fprintf(&b, "    %s: v%d\n", groupLabelKeys[i], i)
+		}
+	}
+	b.WriteString("  rules:\n")
+	exprs := []string{"up == 0", "sum(foo) by (job) > 0", "foo", "rate(errors_total[5m]) > 1"}
+	for i := 0; i < n; i++ {
+		name := fmt.Sprintf("Bulk%03d", i)
+		fmt.Fprintf(&b, "  - alert: %s\n    expr: %s\n", name, exprs[(i+variant)%len(exprs)])
+		if (i+variant)%3 == 0 {
+			b.WriteString("    for: 5m\n")
+		}
+		fmt.Fprintf(&b, "    labels:\n      team: %s\n", name)
+		if (i+variant)%4 == 0 {
+			b.WriteString("      severity: critical\n")
+		}
+		if (i+variant)%5 != 0 {
+			b.WriteString("    annotations:\n      summary: \"{{ $labels.job }} is down\"\n")
+		}
+	}
+	return b.String()
 }
 
 // renderDoc renders groups (styled) plus optional extra raw rule nodes that
@@ -240,6 +297,7 @@ func GenInput(t *rapid.T, o GenOpts) Input {
 			if rapid.IntRange(0, 4).Draw(t, fmt.Sprintf("%s.g%d.int", lbl, gi)) == 0 {
 				g.Interval = rapid.SampledFrom([]string{"1m", "30s", "5m"}).Draw(t, lbl+".interval")
 			}
+			g.Labels = genGroupLabels(t, fmt.Sprintf("%s.g%d", lbl, gi))
 			nr := rapid.IntRange(1, o.MaxRules).Draw(t, fmt.Sprintf("%s.g%d.nrules", lbl, gi))
 			for ri := 0; ri < nr; ri++ {
 				rl := fmt.Sprintf("%s.g%d.r%d", lbl, gi, ri)
@@ -265,6 +323,14 @@ func GenInput(t *rapid.T, o GenOpts) Input {
 		}
 		s := gen.NewStyler(t, o.Styles)
 		in.Files = append(in.Files, FileSpec{Name: name, Content: renderDoc(s, groups, extra)})
+	}
+
+	if o.Bulk && rapid.IntRange(0, 2).Draw(t, "bulk") == 0 {
+		n := rapid.IntRange(50, 200).Draw(t, "bulk.n")
+		k := rapid.SampledFrom([]int{0, 3, 3, 5, 6, 7, 4}).Draw(t, "bulk.k")
+		v := rapid.IntRange(0, 11).Draw(t, "bulk.variant")
+		in.Files = append(in.Files, FileSpec{Name: "bulk.yml", Content: bulkFile(n, k, v)})
+		tag["bulk"] = true
 	}
 
 	var ctags []string
@@ -365,7 +431,11 @@ func genCheckBlock(t *rapid.T, lbl string, single map[string]bool, comments map[
 	case "label":
 		key := rapid.SampledFrom([]string{"team", "severity", "env", "job", "a"}).Draw(t, lbl+".key")
 		b.head = "label " + hclStr(key)
-		val := rapid.SampledFrom([]string{"", "", "prod|dev", "critical|warning", "[a-z]+"}).Draw(t, lbl+".val")
+		val := rapid.SampledFrom([]string{"", "", "prod|dev", "critical|warning", "[a-z]+", "{{ $alert }}"}).Draw(t, lbl+".val")
+		if val == "{{ $alert }}" {
+			key = "team"
+			b.head = "label " + hclStr(key)
+		}
 		if val != "" {
 			b.attrs = append(b.attrs, "value = "+hclStr(val))
 		}
@@ -399,7 +469,7 @@ func genCheckBlock(t *rapid.T, lbl string, single map[string]bool, comments map[
 			b.attrs = append(b.attrs, "strip = "+hclList([]string{"instance"}))
 		}
 	case "reject":
-		b.head = "reject " + hclStr(rapid.SampledFrom([]string{"https?://.+", ".* +.*", "page|critical", "a|b|x|1|2", "summary|.* is down"}).Draw(t, lbl+".pat"))
+		b.head = "reject " + hclStr(rapid.SampledFrom([]string{"https?://.+", ".* +.*", "page|critical", "a|b|x|1|2", "summary|.* is down", "{{ $alert }}"}).Draw(t, lbl+".pat"))
 		any := false
 		for _, f := range []string{"label_keys", "label_values", "annotation_keys", "annotation_values"} {
 			if rapid.Bool().Draw(t, lbl+"."+f) {
@@ -511,6 +581,7 @@ func genLadder(t *rapid.T, comments map[string]string) (string, []string) {
 		{"annotation", `annotation "dashboard"`, []string{"required = true"}, false},
 		{"annotation", `annotation "summary"`, []string{`value = "[A-Z].+ is down"`, "required = true"}, false},
 		{"label", `label "team"`, []string{"required = true"}, true},
+		{"label", `label "team"`, []string{`value = "{{ $alert }}"`, "required = true"}, false},
 		{"label", `label "severity"`, []string{`value = "critical|warning"`, "required = true"}, true},
 		{"for", "for", []string{`min = "10m"`}, false},
 		{"keep_firing_for", "keep_firing_for", []string{`max = "1m"`}, false},
